@@ -75,7 +75,13 @@ def main():
     sel = [m for m in M if not pats or any(p in m["name"] for p in pats)]
     out = []
     for m in sel:
-        rows = run_one(m, tier, tests)
+        try:
+            rows = run_one(m, tier, tests)
+        except AssertionError as e:
+            line = f"| {m['name']} | - | {tier} | ERROR | 0 | 0s | {e} |  |"
+            print(line, flush=True)
+            out.append(line)
+            continue
         for r in rows:
             status = "CAUGHT" if r[2] == 1 else ("MISSED" if r[2] == 0 else "ERROR")
             line = f"| {r[0]} | {r[1]} | {tier} | {status} | {r[3]} | {r[5]:.0f}s | {r[4].replace('|','/')} | {r[6]} |"
